@@ -13,3 +13,4 @@ TECHNIQUE = "contract-based deductive verification (VCs from the ast of the real
 UNITS = [VIO.unit_writer_init(), VIO.unit_writer_write_row(), VIO.unit_padded_fixed_row(), VIO.unit_validate_row(), RW.unit_fixed_row_writer_write_row(), RW.unit_delimited_row_writer_write_row(), VIO.unit_writer_sweep(), RD.unit_as_delimited_keywords(), RD.unit_audit_csv()]
 UNITS += [VIO.unit_writer_write_rows(), VIO.unit_writer_close()]
 UNITS += [RW.unit_fixed_row_writer_init(), RW.unit_delimited_row_writer_init(), RW.unit_row_writer_close(), RW.unit_row_writer_write_rows()]
+UNITS += [RD.unit_delimited_rows().also("C14"), FX.unit_fixed_rows().also("C14"), VIO.unit_raw_rows()]
